@@ -307,7 +307,15 @@ RunDetail(p, e, m) ==
       \* the delay slot of a jr or of a jal (calls are lifted as IL Branch operations)
       jb  == IF pw(la - 2) % 4 = 0 /\ pw(la - 2) < 4 * NW(p) THEN pw(la - 2) \div 4 ELSE -1
       indirect == slotjump /\ jb >= 0 /\ pw(la - 1) = 4 * (jb + 1) /\ DecAt(p, jb).mn \in {"jr", "jal"}
-  IN [at |-> m.at, expected_pc |-> m.pc, last_word |-> i,
+      \* some IL Branch of this run (jr / jal, resolved by the Driver by address) landed on a word that is lifted to
+      \* several IL blocks (slt, slti, movz, ...): the lookup may return an instruction of an inner block
+      n   == Len(NativePcs(e))
+      wd(k) == IF pw(k) % 4 = 0 /\ pw(k) < 4 * NW(p) THEN pw(k) \div 4 ELSE -1
+      intomb == IsMips(p) /\ \E k \in 3..n :
+                   /\ wd(k) >= 0 /\ wd(k - 2) >= 0 /\ wd(k - 1) = wd(k - 2) + 1
+                   /\ DecAt(p, wd(k - 2)).mn \in {"jr", "jal"}
+                   /\ p.alone[wd(k) + 1][3] > 1
+  IN [at |-> m.at, expected_pc |-> m.pc, last_word |-> i, il_branch_into_multiblock |-> intomb,
       last_mn |-> IF i < 0 THEN "" ELSE IF IsMips(p) THEN DecAt(p, i).mn ELSE PDecode(WordAt(p, i)).mn,
       last_is_slot |-> (IsMips(p) /\ i >= 1 /\ MIsBranch(DecAt(p, i - 1).mn)),
       entered_slot_by_jump |-> (IsMips(p) /\ slotjump),
